@@ -575,6 +575,10 @@ def expected_fitness(case, x):
 
 
 def feq(a, b, rel=1e-12):
+    import math
+
+    if any(isinstance(t, float) and not math.isfinite(t) for t in (a, b)):
+        return False  # every expected value is finite
     fa, fb = Fraction(a), Fraction(b)
     return fa == fb or abs(fa - fb) <= Fraction(rel) * max(abs(fa), abs(fb))
 
